@@ -134,7 +134,8 @@ def finalize(col, meta):
     for mech, v in col.violations.items():
         (known_hit if mech in known else real)[mech] = v
 
-    os.makedirs(os.path.join(env.VERIF_DIR, 'evidence'), exist_ok=True)
+    out_root = os.environ.get('RV_OUT_DIR') or env.VERIF_DIR     # (self-check runs against mutants write elsewhere)
+    os.makedirs(os.path.join(out_root, 'evidence'), exist_ok=True)
     samples = []
     for kind, lst in sorted(col.samples.items()):
         for s in lst:
@@ -160,7 +161,7 @@ def finalize(col, meta):
         'assumptions': meta.get('assumptions', []),
         'wall_s': wall, 'violations': len(real),
     }
-    with open(os.path.join(env.VERIF_DIR, 'evidence', prop + '.json'), 'w') as f:
+    with open(os.path.join(out_root, 'evidence', prop + '.json'), 'w') as f:
         json.dump(evidence, f, indent=1, sort_keys=True, default=short)
         f.write('\n')
 
@@ -171,7 +172,7 @@ def finalize(col, meta):
     status = 0
     if real:
         status = 1
-        rdir = os.path.join(env.VERIF_DIR, 'replays')
+        rdir = os.path.join(out_root, 'replays')
         os.makedirs(rdir, exist_ok=True)
         for n, (mech, v) in enumerate(sorted(real.items())):
             if n >= MAX_VIOLATION_LINES:
